@@ -76,6 +76,18 @@ func targetObject(kind string, leafRef string) map[string]any {
 	panic("kind " + kind)
 }
 
+// markTarget rewrites the TARGET marker of a target object.
+func markTarget(kind string, t map[string]any, mark string) {
+	switch kind {
+	case "example":
+		t["summary"] = mark
+	case "callback":
+		t["{$request.body#/u}"].(map[string]any)["post"].(map[string]any)["responses"].(map[string]any)["200"].(map[string]any)["description"] = mark
+	default:
+		t["description"] = mark
+	}
+}
+
 func kindHasNestedSchema(kind string) bool {
 	switch kind {
 	case "example", "link", "securityScheme":
@@ -169,6 +181,10 @@ var forestShapes = []shapeDef{
 	{name: "self-cycle-in-file", ext: true, schemaOnly: true},
 	{name: "mutual-cycle-two-files", ext: true, schemaOnly: true},
 	{name: "same-name-in-two-files", ext: true, schemaOnly: true},
+	{name: "file-local-nested-ref", ext: true, nested: true},
+	{name: "file-local-ref-under-inline-items", ext: true, schemaOnly: true},
+	{name: "two-files-same-component-name", ext: true},
+	{name: "same-file-two-spellings", ext: true},
 	{name: "non-components-fragment"},
 	{name: "pure-ref-loop"},
 	{name: "dangling-internal"},
@@ -333,6 +349,33 @@ func BuildForest(kind, shape string, pos Position, layout, spelling, entry strin
 		other := map[string]any{"type": "object", "description": "OTHER", "properties": map[string]any{"y": map[string]any{"$ref": frag(sec, "Tgt")}}}
 		files[f1Loc] = componentsDoc(map[string]map[string]any{sec: {"Other": other, "Tgt": map[string]any{"type": "string", "description": "F1-TGT"}}})
 		planted = frag(sec, "Tgt")
+	case "file-local-nested-ref":
+		// the target's nested reference is local to its own file; the root has a different schema under the same name
+		d := componentsDoc(map[string]map[string]any{sec: {"Tgt": targetObject(kind, frag("schemas", "Local"))}})
+		addComponent(d, "schemas", "Local", map[string]any{"type": "string", "description": "LOCAL-OF-F1"})
+		files[f1Loc] = d
+		addComponent(root, "schemas", "Local", map[string]any{"type": "integer", "description": "LOCAL-OF-ROOT"})
+		planted = r1 + frag(sec, "Tgt")
+	case "file-local-ref-under-inline-items":
+		t := map[string]any{"type": "array", "description": "TARGET", "items": map[string]any{"type": "object", "properties": map[string]any{"p": map[string]any{"$ref": frag("schemas", "Local")}},
+			"additionalProperties": map[string]any{"not": map[string]any{"$ref": frag("schemas", "Local2")}}}}
+		d := componentsDoc(map[string]map[string]any{sec: {"Tgt": t, "Local": map[string]any{"type": "string", "description": "LOCAL-OF-F1"}, "Local2": map[string]any{"type": "boolean", "description": "LOCAL2-OF-F1"}}})
+		files[f1Loc] = d
+		addComponent(root, "schemas", "Local", map[string]any{"type": "integer", "description": "LOCAL-OF-ROOT"})
+		planted = r1 + frag(sec, "Tgt")
+	case "two-files-same-component-name":
+		t1 := targetObject(kind, "")
+		t2 := targetObject(kind, "")
+		markTarget(kind, t1, "TARGET-IN-F1")
+		markTarget(kind, t2, "TARGET-IN-F2")
+		files[f1Loc] = componentsDoc(map[string]map[string]any{sec: {"Tgt": t1}})
+		files[f2Loc] = componentsDoc(map[string]map[string]any{sec: {"Tgt": t2}})
+		addComponent(root, sec, "Second", map[string]any{"$ref": relRef(rootLoc, f2Loc, "plain") + frag(sec, "Tgt")})
+		planted = r1 + frag(sec, "Tgt")
+	case "same-file-two-spellings":
+		files[f1Loc] = componentsDoc(map[string]map[string]any{sec: {"Tgt": targetObject(kind, "")}})
+		addComponent(root, sec, "Second", map[string]any{"$ref": relRef(rootLoc, f1Loc, "detour") + frag(sec, "Tgt")})
+		planted = r1 + frag(sec, "Tgt")
 	case "non-components-fragment":
 		switch kind {
 		case "schema":
@@ -415,7 +458,9 @@ func readerKey(u *url.URL) string {
 		return path.Clean(u.Path)
 	}
 	c := *u
-	c.Path = path.Clean(c.Path)
+	if c.Path != "" {
+		c.Path = path.Clean(c.Path)
+	}
 	c.Fragment = ""
 	return c.String()
 }
